@@ -1,11 +1,11 @@
 (* G3 part of the C12 driver (API-level uniqueness of the blackboard writer port / write handles).
    A fragment: paste it into ocaml/c12/driver.ml after `open Model`; entry point `run_g3 ()`.
    Parsing / printing only; all behaviour comes from Model (extracted from model/Blackboard.v):
-     bb_new step            the concrete model (the tie): replayed on the harness's operations,
+     bb_new bb_step         the concrete model (the tie): replayed on the harness's operations,
                             its observation and its (number_of_writers, number_of_readers) are
                             compared with the implementation's            -> kind=model
-     sp_new sp_step         the reference specification, an ACCEPTOR that is driven by the
-     sp_digest_ok           implementation's OWN observations (never by the model's): it rejects
+     bb_sp_new bb_sp_step   the reference specification, an ACCEPTOR that is driven by the
+     bb_sp_digest_ok        implementation's OWN observations (never by the model's): it rejects
                             e.g. a second successful create-writer while a Writer is held, a second
                             live write handle for a key, a get that is not the last written value,
                             a refused create when nothing holds the resource, more than
@@ -131,7 +131,7 @@ module G3 = struct
           bump extra ("cases_" ^ kind);
           refused_since_create := false; handle_refused := false;
           st := Some (bb_new (nat_of_int mr) init);
-          sp := Some (sp_new (nat_of_int mr) init)
+          sp := Some (bb_sp_new (nat_of_int mr) init)
         | "O" :: name :: rest ->
           incr op_no; incr ops_total;
           let rec split acc = function "=" :: r -> (List.rev acc, r) | x :: r -> split (x :: acc) r | [] -> (List.rev acc, []) in
@@ -146,13 +146,13 @@ module G3 = struct
           (match !st with
            | None -> ()
            | Some s ->
-             let (s', om) = step s o in
+             let (s', om) = bb_step s o in
              let oms = show_obs name om in
              if oms <> impl then begin
                incr mm_model; st := None;
                Printf.printf "MISMATCH case=%d op=%d kind=model line=[%s] model=%s impl=%s\n" !case_no !op_no line oms impl
              end else begin
-               let mw = int_of_nat (nwriters s') and mrd = int_of_nat (nreaders s') in
+               let mw = int_of_nat (bb_nwriters s') and mrd = int_of_nat (bb_nreaders s') in
                (match dnum "w", dnum "r" with
                 | Some w, Some r when w = mw && r = mrd -> st := Some s'
                 | _ ->
@@ -169,7 +169,7 @@ module G3 = struct
                 incr mm_spec; sp := None;
                 Printf.printf "MISMATCH case=%d op=%d kind=spec line=[%s] spec=no-such-answer impl=%s\n" !case_no !op_no line impl
               | Some ob ->
-                (match sp_step a o ob with
+                (match bb_sp_step a o ob with
                  | None ->
                    incr mm_spec; sp := None;
                    Printf.printf "MISMATCH case=%d op=%d kind=spec line=[%s] spec=inadmissible impl=%s\n" !case_no !op_no line impl
@@ -177,7 +177,7 @@ module G3 = struct
                    sp := Some a';
                    (match dnum "w", dnum "r" with
                     | Some w, Some r ->
-                      if not (sp_digest_ok a' (nat_of_int w) (nat_of_int r)) then begin
+                      if not (bb_sp_digest_ok a' (nat_of_int w) (nat_of_int r)) then begin
                         incr mm_spec;
                         Printf.printf "MISMATCH case=%d op=%d kind=spec line=[%s] spec=registered-ports-inadmissible impl=w=%d_r=%d\n"
                           !case_no !op_no line w r end
